@@ -1,15 +1,45 @@
 /-
   Avt.Spec.C13 — oracle of property C13 (decidable predicates evaluated on implementation states;
   the same definitions the theorems in Avt/Props/C13.lean are stated with).
+
+  C13: with scrollback limit `L`, once a `feed_str` or `resize` call has returned (its `Changes`
+  consumed or dropped), `lines()` holds at most `rows + L + L/10` lines — exactly `rows` when
+  `L = 0` — and exactly the visible rows while the alternate screen is showing.
 -/
 import Avt.Spec.Base
 
 namespace Avt.Spec.C13
 open Avt Avt.Spec
 
-def checkStep (_ev : StepEv) : List Verdict := []
+/-- `lines().len() ≤ rows + L + ⌊L/10⌋` for the configured limit `L` (no bound without a limit) -/
+def withinLimit (v : Vt) : Bool :=
+  match v.terminal.scrollbackLimit with
+  | some L => v.lines.length ≤ v.terminal.rows + L + L / 10
+  | none => true
 
-def checkNew (_cols _rows : Nat) (_lim : Option Nat) (_st : Vt) : List Verdict := []
+/-- limit `0`: no scrollback at all -/
+def exactWhenZero (v : Vt) : Bool :=
+  v.terminal.scrollbackLimit != some 0 || v.lines.length == v.terminal.rows
+
+/-- alternate screen: `lines()` is exactly the visible rows -/
+def exactOnAlternate (v : Vt) : Bool :=
+  v.terminal.activeBufferType != .alternate || v.lines.length == v.terminal.rows
+
+/-- the whole property on a state right after a finishing call -/
+def boundOK (v : Vt) : Bool := withinLimit v && exactWhenZero v && exactOnAlternate v
+
+/-- after every finishing call (`feed_str` consumed / dropped, `resize`; not `Vt::feed`, which runs no
+    `gc()`) the bound holds on the implementation's state -/
+def checkStep (ev : StepEv) : List Verdict :=
+  if ev.kind.finishes then
+    [ check "lines-within-rows+L+L/10" ev.next.terminal.scrollbackLimit.isSome (withinLimit ev.next),
+      check "exactly-rows-when-limit-0" (ev.next.terminal.scrollbackLimit == some 0) (exactWhenZero ev.next),
+      check "exactly-rows-on-alternate-screen" (ev.next.terminal.activeBufferType == .alternate)
+        (exactOnAlternate ev.next) ]
+  else []
+
+def checkNew (_cols _rows : Nat) (_lim : Option Nat) (st : Vt) : List Verdict :=
+  [ check "new-terminal-within-bound" true (boundOK st) ]
 
 def checkParserStep (_prev : Parser) (_c : Nat) (_next : Parser) (_fn : String) : List Verdict := []
 
